@@ -121,6 +121,10 @@ func vLexLE(a, b weight) bool {
 //@   call mapupdate#2 assert oldWeight.isNone() || vLexLE(oldWeight, we)
 //@   call mapupdate#2 assert arg2.weight == we && arg1 == decl.Name
 //@   call mapupdate#4 assert we.precedence == declarationPrecedence(sh.origin, decl.Important) && we.specificity == specificity
+// a sheet with a forced specificity (the presentational-hint sheet: (0,0,0), so that every author rule wins) gives
+// it to each of its rules IN PLACE of the selector's own; other sheets rank by the selector's specificity
+//@   call ToKey#3 assert[forced-specificity-replaces-the-selectors-own] len(sh.specificity) == 3 ==> specificity[0] == sh.specificity[0] && specificity[1] == sh.specificity[1] && specificity[2] == sh.specificity[2]
+//@   call mapupdate#4 assert[otherwise-the-selectors-own] len(sh.specificity) != 3 ==> we.specificity == sel.specificity
 //@   call mapupdate#4 assert oldWeight.isNone() || vLexLE(oldWeight, we)
 //@   call mapupdate#4 assert arg2.weight == we && arg1 == decl.Name
 // ... and later declarations win ties: after a declaration is processed its slot holds the new weight unless the
